@@ -173,6 +173,9 @@ impl Tx {
 pub struct Handles {
     tx: Vec<Option<Tx>>,
     rx: Vec<Option<Receiver<u64>>>,
+    /// lives in the closure / async block of the task from its spawn until the task starts (or is dropped unstarted)
+    #[allow(dead_code)]
+    token: Token,
 }
 
 impl Handles {
@@ -180,7 +183,33 @@ impl Handles {
         Handles {
             tx: (0..n).map(|_| None).collect(),
             rx: (0..n).map(|_| None).collect(),
+            token: Token::new(),
         }
+    }
+}
+
+/// C14: a value with an observable destructor owned by every spawned closure.  `LIVE` counts the tokens that exist; the
+/// destructor also writes a label on the main task, the way a debugging guard would.  At the start of every execution no
+/// token of an earlier execution may be alive and the main task may carry no such label (`main_body` logs an `L` line
+/// otherwise).
+pub static LIVE: std::sync::atomic::AtomicIsize = std::sync::atomic::AtomicIsize::new(0);
+
+#[derive(Clone, Debug)]
+pub struct VhTornDown;
+
+pub struct Token;
+
+impl Token {
+    fn new() -> Self {
+        LIVE.fetch_add(1, std::sync::atomic::Ordering::SeqCst);
+        Token
+    }
+}
+
+impl Drop for Token {
+    fn drop(&mut self) {
+        LIVE.fetch_sub(1, std::sync::atomic::Ordering::SeqCst);
+        shuttle::current::set_label_for_task(shuttle::current::TaskId::from(0usize), VhTornDown);
     }
 }
 
@@ -484,6 +513,12 @@ pub fn make_ctx(prog: Arc<Program>) -> (Arc<Ss<Ctx>>, Handles) {
 
 /// The closure handed to `Runner::run` (task 0).
 pub fn main_body(prog: Arc<Program>) {
+    // C14: the world at the start of an execution — nothing created by an earlier execution is alive, no label is left
+    let live = LIVE.load(std::sync::atomic::Ordering::SeqCst);
+    let label = shuttle::current::get_label_for_task::<VhTornDown>(shuttle::current::me()).is_some();
+    if live != 0 || label {
+        log(format!("L live={} label={}", live, label as u8));
+    }
     let (ctx, hs) = make_ctx(prog);
     ctx.0.threads.lock().unwrap()[0] = Some(thread::current());
     run_task(ctx, 0, hs);
